@@ -703,6 +703,118 @@ func runStaleInFlight(c *Case) error {
 	return nil
 }
 
+// TestFailureStorm: many callers keep issuing calls while the connection
+// fails; a caller may enter Rpc at any instant of the receiver's shutdown.
+// Every call must return (promptly, with an error once the failure has
+// happened); none may hang.
+func TestFailureStorm(t *testing.T) {
+	rounds := hx.N(120, 900)
+	for r := 0; r < rounds; r++ {
+		if hx.NShards > 1 && r%hx.NShards != hx.Shard {
+			continue
+		}
+		c := &Case{Dotu: r%2 == 0, Msize: 512, Fail: []string{"eof", "err", "unmount", "badtype", "unknowntag"}[r%5], Calls: []string{"storm"}, After: 8, Cut: r}
+		hx.Journal("storm", c)
+		hx.Eval()
+		hx.Label("storm fail=" + c.Fail)
+		b, _ := json.Marshal(c)
+		hx.NonTrivial(b)
+		err := runStorm(c)
+		if h, ok := err.(hangErr); ok {
+			if blocked := hx.BlockedInGo9p(); blocked != "" {
+				err = fmt.Errorf("%s; goroutines blocked inside go9p:\n%s", string(h), blocked)
+			} else {
+				hx.Inconclusive(string(h))
+				err = nil
+			}
+		}
+		if err != nil {
+			hx.Violation("storm", c, err.Error())
+			t.Fatalf("%v", err)
+		}
+	}
+}
+
+func runStorm(c *Case) error {
+	p := peer.New("c10storm", c.Msize, true)
+	p.Start(false)
+	clnt, err := go9p.Connect(p.Lib, c.Msize, c.Dotu)
+	if err != nil {
+		return fmt.Errorf("Connect: %v", err)
+	}
+	defer clnt.Unmount()
+	stopPeer := make(chan struct{})
+	var served int64
+	go func() { // the peer answers everything until told to stop
+		for {
+			select {
+			case <-stopPeer:
+				return
+			default:
+			}
+			r, ok := p.Next(time.Millisecond)
+			if !ok {
+				return
+			}
+			if r == nil || r.Err != nil {
+				continue
+			}
+			_ = p.Write(p.Encode(peer.Answer(r.Msg)), nil)
+			served++
+		}
+	}()
+	ncallers := c.After
+	var wg sync.WaitGroup
+	errsSeen := make([]int, ncallers)
+	for i := 0; i < ncallers; i++ {
+		wg.Add(1)
+		go func(i int) {
+			defer wg.Done()
+			f := clnt.FidAlloc()
+			f.Iounit = c.Msize - 24
+			for k := 0; k < 4000 && errsSeen[i] < 3; k++ {
+				r := doCall(clnt, []string{"stat", "read", "write"}[(i+k)%3], f, uint64(i*100000+k))
+				if r.err != nil {
+					errsSeen[i]++ // re-issue a few times after the failure
+				} else if err := checkSuccess(r); err != nil {
+					errsSeen[i] = 99
+					return
+				}
+			}
+		}(i)
+	}
+	// let the storm run for a moment (a drawn number of served calls), then fail the connection
+	for w := 0; w < 2000 && served < int64(5+c.Cut%40); w++ {
+		time.Sleep(20 * time.Microsecond)
+	}
+	switch c.Fail {
+	case "eof":
+		p.End.CloseWrite()
+	case "err":
+		p.End.FailPeer(errors.New("injected transport error"))
+	case "unmount":
+		clnt.Unmount()
+	case "badtype":
+		_ = p.Write([]byte{7, 0, 0, 0, 99, 1, 0}, nil)
+	case "unknowntag":
+		_ = p.Write(p.Encode(&ref9p.Msg{Type: ref9p.Rclunk, Tag: 0x7777}), nil)
+	}
+	close(stopPeer)
+	done := make(chan struct{})
+	go func() { wg.Wait(); close(done) }()
+	select {
+	case <-done:
+	case <-time.After(deadline):
+		return hangErr(fmt.Sprintf("callers that kept issuing calls while the connection failed (%s) did not all return within %v", c.Fail, deadline))
+	}
+	for i, n := range errsSeen {
+		if n == 99 {
+			return fmt.Errorf("caller %d got a successful call with a wrong result during the storm", i)
+		}
+	}
+	return nil
+}
+
 func seq(n int) []int {
 	s := make([]int, n)
 	for i := range s {
